@@ -2804,7 +2804,7 @@ func (pc *persistConn) readLoop() {
 		}
 
 		resp.Body = body
-		if rc.addedGzip && ascii.EqualFold(resp.Header.Get("Content-Encoding"), "gzip") {
+		if rc.addedGzip && ascii.EqualFold(compress.ContentEncoding(resp.Header), "gzip") {
 			resp.Body = &gzipReader{body: body}
 			resp.Header.Del("Content-Encoding")
 			resp.Header.Del("Content-Length")
@@ -2812,7 +2812,7 @@ func (pc *persistConn) readLoop() {
 			resp.Uncompressed = true
 		} else if pc.t.AutoDecompression {
 			// Leave the response alone unless the encoding is one we can decode.
-			if cr := compress.NewCompressReader(resp.Body, resp.Header.Get("Content-Encoding")); cr != nil {
+			if cr := compress.NewCompressReader(resp.Body, compress.ContentEncoding(resp.Header)); cr != nil {
 				resp.Header.Del("Content-Encoding")
 				resp.Header.Del("Content-Length")
 				resp.ContentLength = -1
